@@ -9,7 +9,7 @@ import struct
 import tempfile
 
 from mc import choices
-from mc.engine import PRUNE, State, System, Violation, call, canon
+from mc.engine import PRUNE, State, System, Violation, call, canon, twin_divergence
 
 choices.install()
 
@@ -513,22 +513,43 @@ class CuckooSystem(System):
                     f.expansion_rate, f.auto_expand, f.fingerprint_size, f.error_rate,
                     f.unique_elements if counting else None, call(bytes, f))
 
+        def ro(x):
+            for k, _ in keys[:4]:
+                call(x.check, k)
+                call(x.__contains__, k)
+            call(x.check, "never-added")
+            call(x.__contains__, b"never-added")
+            call(str, x)
+            call(x.load_factor)
+            call(bytes, x)
+            call(x.export, io.BytesIO())
+            for bucket in x.buckets:
+                for ent in bucket:
+                    call(str, ent)
+
         before = vec()
-        for k, _ in keys[:4]:
-            call(f.check, k)
-            call(f.__contains__, k)
-        call(f.check, "never-added")
-        call(f.__contains__, b"never-added")
-        call(str, f)
-        call(f.load_factor)
-        call(bytes, f)
-        call(f.export, io.BytesIO())
-        for bucket in f.buckets:
-            for ent in bucket:
-                call(str, ent)
+        ro(f)
         after = vec()
         if before != after:
             bad("C19", "cuckoo.queries_do_not_mutate", {"before": repr(before)[:300], "after": repr(after)[:300]})
+        if self.cur_depth <= cfg.get("twin_depth", 2):
+            div = twin_divergence(self, cfg, st, lambda q: ro(q.impl),
+                                  lambda x: (_table(x.impl, counting), x.impl.elements_added, x.impl.capacity))
+            if div is not None:
+                bad("C19", "cuckoo.queried_twin_diverges_one_step_later", div)
+            # ... and for a twin pair obtained by loading an export (loaded buckets are arrays)
+            bb = call(bytes, f)
+            if bb[0] == "ok":
+                ld = call(lambda: _cls(cfg).frombytes(bb[1], hash_function=make_hash(cfg)))
+                if ld[0] == "ok":
+                    g0 = ld[1]
+                    g0.fingerprint_size = max(1, f.fingerprint_size)
+                    g0.auto_expand = f.auto_expand
+                    lst = State(g0, self.clone(st).model)
+                    div = twin_divergence(self, cfg, lst, lambda q: ro(q.impl),
+                                          lambda x: (_table(x.impl, counting), x.impl.elements_added, x.impl.capacity))
+                    if div is not None:
+                        bad("C19", "cuckoo.queried_twin_diverges_one_step_later_loaded", div)
         # the same on a table obtained by loading an export (loaded buckets are arrays, not lists)
         b = call(bytes, f)
         if b[0] == "ok":
